@@ -40,8 +40,10 @@ def main(tier, seed, replay):
             k.model_check(f"MC_Vis_{pol}", mc_consts(policy=pol, kinds=("spawn", "despawn", "setvis", "insert", "remove"), ops=4, ticks=3), inv, props, timeout=3000)
         k.must_find("MC_Struct_F9", mc_consts(impl="ImplF9", ops=3, kinds=("spawn", "remove"), ticks=2, idle=2), inv)
         k.must_find("MC_Struct_F3", mc_consts(impl="ImplF3", ops=3, kinds=("spawn", "despawn", "remove"), ticks=2, idle=2), inv)
-        k.must_find("MC_Vis_F2", mc_consts(impl="ImplF2", policy="black", kinds=("spawn", "despawn", "setvis"), idle=2), inv)
-        k.must_find("MC_Vis_F14", mc_consts(impl="ImplF14", policy="white", kinds=("spawn", "setvis"), ops=5), inv)
+        # (F2 / F14 leave a hidden entity on the client for ever: the client stays consistent with its stale update
+        # tick, so the structural defect shows at quiescence)
+        k.must_find("MC_Vis_F2", mc_consts(impl="ImplF2", policy="black", kinds=("spawn", "despawn", "setvis"), idle=2), inv + ["Inv_C01"])
+        k.must_find("MC_Vis_F14", mc_consts(impl="ImplF14", policy="white", kinds=("spawn", "setvis"), ops=5), inv + ["Inv_C01"])
         tr = k.validate_profile("core", 3000)
         k.validate_profile("core2", 1500)
         k.validate_profile("vis_black", 1500)
